@@ -10,4 +10,11 @@ def write_delimited(frame: jelly.RdfStreamFrame, output_stream: IO[bytes]) -> No
 
 
 def write_single(frame: jelly.RdfStreamFrame, output_stream: IO[bytes]) -> None:
-    output_stream.write(frame.SerializeToString(deterministic=True))
+    data = frame.SerializeToString(deterministic=True)
+    written = output_stream.write(data)
+    if written is not None and written != len(data):
+        msg = (
+            f"Failed to write complete frame (wrote: {written}, expected: "
+            f"{len(data)}). Ensure output is using buffered IO."
+        )
+        raise TypeError(msg)
